@@ -379,10 +379,12 @@ Proof.
   { rewrite Eo. change (1 + 1)%Z with 2%Z. split.
     - apply (cm_fle_R _ _ F1 Fl). vm_compute. reflexivity.
     - apply (cm_flt_R _ _ Fl F2). vm_compute. reflexivity. }
-  destruct (cmf_bin_adds exf_lower exf_lower exf_index_exact exf_scale true 6 1 f64_one) as [l|] eqn:E.
-  2:{ exfalso. vm_compute in E. discriminate E. }
+  assert (Hb : match cmf_bin_adds exf_lower exf_lower exf_index_exact exf_scale true 6 1 f64_one with
+               | Some _ => true | None => false end = true) by (vm_compute; reflexivity).
+  destruct (cmf_bin_adds exf_lower exf_lower exf_index_exact exf_scale true 6 1 f64_one) as [l|] eqn:E;
+    [clear Hb|discriminate Hb].
   exists l.
-  split; [repeat (split; [first [assumption | reflexivity]|]); assumption|].
+  split; [exact (conj Fl (conj Fh (conj Fs (conj eq_refl (conj eq_refl (conj HD (conj Hfin (conj Hinc Hidx))))))))|].
   split; [reflexivity|].
   split; [rewrite <- E; vm_compute; reflexivity|].
   exact (cmw_bin_adds_total exf_lower exf_lower exf_index_exact exf_scale 6 1 f64_one l Fl Fh Fs eq_refl eq_refl HD Hfin Hinc Hidx E).
